@@ -6,9 +6,19 @@ package main
 // observation.  zap.Any is run on the same values (dynamic type + implemented interfaces shipped
 // with the case) and compared with the typed constructor; Field.Equals is run on pairs.
 //
-//	(0 #name #key val #stack)                     -> (field calls) | (-1)
-//	(1 dynty (iface..) #key val #typedname)       -> (anyfield anycalls typedfield equals) | (-1)
-//	(2 (#name #key val) (#name #key val))         -> (r12 r21 r11 r22)   r: 0 false, 1 true, 2 panic
+//	(0 #name #key val #stack (la lb))               -> (field calls) | (-1)
+//	(1 dynty (iface..) #key val #typedname (la lb)) -> (anyfield anycalls typedfield equals) | (-1)
+//	(2 (#name #key val) (#name #key val) (la lb))   -> (r12 r21 r11 r22)   r: 0 false, 1 true, 2 panic
+//
+// Ambient state.  A Field is a value that is routinely encoded later than it is built (With,
+// WithLazy, buffering / sampling cores, zaptest/observer), and what the encoder then receives must
+// still be the value the caller supplied -- not something re-derived from a process global that has
+// changed in the meantime.  The process global a Field could depend on is time.Local (time.Unix,
+// time.Now, Time.Local read it), an assignable variable (`time.Local = time.UTC`).  Every case
+// therefore carries (la lb): the identity of the location time.Local pointed to while the Field was
+// built / while it was encoded (Equals pairs: while the first / the second Field was built).  In
+// the "ambient" classes time.Local is re-pointed between the two moments: the values are made and
+// the Fields built with time.Local = a, then time.Local = b, then Field.AddTo and Field.Equals.
 
 import (
 	"fmt"
@@ -78,7 +88,28 @@ func c03Times() []time.Time {
 		time.Date(1677, 9, 21, 0, 12, 43, 145224191, c03Locs[5]), time.Date(292277026596, 12, 4, 15, 30, 7, 999999999, time.UTC),
 		time.Date(-292277022399, 1, 1, 0, 0, 0, 0, time.UTC), time.Date(2024, 2, 29, 12, 0, 0, 1, ny), time.Date(1969, 12, 31, 23, 59, 59, 999999999, c03Locs[2]),
 		time.Now(), time.Now().UTC(), time.Now().In(c03Locs[3]),
+		// in the zone that is local AT THIS MOMENT (time.Local is re-pointed by the ambient classes) ...
+		time.Unix(1700000000, 123456789), time.Date(2024, 7, 1, 12, 0, 0, 0, time.Local), time.Unix(0, math.MaxInt64).Add(1).UTC().Local(),
+		// ... and in each of the zones time.Local is, was or will be pointed to
+		time.Unix(1700000000, 1).In(c03AmbLocs[0]), time.Unix(1700000000, 2).In(c03AmbLocs[1]), time.Unix(1700000000, 3).In(c03AmbLocs[2]),
+		time.Unix(1700000000, 4).In(c03AmbLocs[3]), time.Unix(0, math.MinInt64).In(c03AmbLocs[4]), time.Unix(1700000000, 5).In(c03AmbLocs[len(c03AmbLocs)-1]),
 	}
+}
+
+// time.Local is re-pointed from a to b between building a Field and encoding it
+type c03amb struct{ a, b *time.Location }
+
+// does a value of type t hold a time.Time (any: it may)
+func c03TimeBearing(t reflect.Type) bool {
+	switch {
+	case t == nil:
+		return false
+	case t == c03TimeType || t == c03AnyType:
+		return true
+	case t.Kind() == reflect.Ptr || t.Kind() == reflect.Slice:
+		return c03TimeBearing(t.Elem())
+	}
+	return false
 }
 
 type c03gen struct {
@@ -163,10 +194,10 @@ func c03PtrTo[T any](x T) *T { return &x }
 func (g *c03gen) anyScalar() interface{} {
 	opts := []interface{}{int(-5), int8(-128), int16(1 << 14), int32(math.MinInt32), int64(math.MaxInt64), uint(7), uint8(255), uint16(65535),
 		uint32(math.MaxUint32), uint64(math.MaxUint64), uintptr(1 << 40), float64(1.5), math.NaN(), float32(2.5), complex(1, math.NaN()), complex64(complex(1, 2)),
-		"text", true, []byte("bin"), []byte(nil), time.Duration(-1), time.Unix(0, 42).UTC(), time.Time{},
+		"text", true, []byte("bin"), []byte(nil), time.Duration(-1), time.Unix(0, 42).UTC(), time.Time{}, time.Unix(1700000000, 42), c03PtrTo(time.Unix(1700000000, 43)),
 		[]int{1, -2}, []string{"a", ""}, []bool(nil), []float64{math.NaN()}, []time.Duration{1, 2}, []uint8{1, 2}, []int32{math.MinInt32},
 		c03PtrTo(int(11)), c03PtrTo(true), c03PtrTo("p"), c03PtrTo(time.Duration(12)), c03PtrTo(float64(1.25)), c03PtrTo(uint8(13)), c03PtrTo(complex64(complex(1, 2))),
-		
+
 		[]error{c03Err{1, 0}, nil}, []zapcore.Field{zap.Int("i", 1), zap.String("s", "x")}}
 	return opts[g.r.Intn(len(opts))]
 }
@@ -311,7 +342,11 @@ func (g *c03gen) value(t reflect.Type, idx int) (v c03v, ok bool) {
 				default:
 					tm = time.Unix(int64(r.Intn(1<<31)), int64(r.Intn(1000000000)))
 				}
-				tm = tm.In(c03Locs[r.Intn(len(c03Locs))])
+				if r.Chance(25) { // the zone that is local at this moment
+					tm = tm.In(time.Local)
+				} else {
+					tm = tm.In(c03Locs[r.Intn(len(c03Locs))])
+				}
 			}
 			return mk(tm, c03VTime(tm), !tm.IsZero())
 		case c03AddrObjType:
@@ -633,6 +668,8 @@ type c03made struct {
 	key string
 	v   c03v
 	f   zapcore.Field
+	la  int     // what time.Local pointed to while f was built
+	amb *c03amb // non-nil: built in an ambient class
 }
 
 func (m c03made) triple() SX {
@@ -653,10 +690,21 @@ func c03(c *Ctx) {
 		nRandom, nPairs = 600, 60000
 	}
 	keys := []string{"k", "", "key with \"quotes\" \x00\xff", "error"}
-	var pool []c03made
+	var pool, ambMade []c03made
 	perCtor := map[string][]c03made{}
+	// whatever happens, C03 leaves time.Local as it found it
+	defer c03SetLocal(c03OrigLocal)
 
-	runCtor := func(e genC03Ctor, key string, v c03v, class string) {
+	// One constructor on one value: build the Field (and zap.Any's Field for the same value) while
+	// time.Local is what it is (amb != nil: amb.a, set by the caller BEFORE it made the value, so that
+	// "local" times are local to amb.a), then -- amb != nil -- re-point time.Local to amb.b, then
+	// encode both Fields and compare them.  time.Local is amb.a again on return.
+	runCtor := func(e genC03Ctor, key string, v c03v, class string, amb *c03amb) {
+		anyClass := "any"
+		if amb != nil {
+			anyClass = "ambient-any"
+			defer c03SetLocal(amb.a)
+		}
 		anySx := v.sx
 		if e.GoParam == "[]uint8" { // the same Go type as []byte, but a slice of integers for this constructor
 			b := v.rv.Bytes()
@@ -666,15 +714,59 @@ func c03(c *Ctx) {
 			}
 			v.sx = c03VSlice(v.rv, l)
 		}
+		// ---- moment 1: the Fields are built ----
+		la := c03AmbID()
 		f, p := c03CallCtor(e, key, v)
 		stack := ""
 		if e.Name == "Stack" || e.Name == "StackSkip" {
 			stack = f.String
 		}
-		in := L(I(0), Str(e.Name), Str(key), v.sx, Str(stack))
 		meta := map[string]string{"class": class + ":" + e.Name, "nt": "0", "ctor": e.Name}
 		if v.nt {
 			meta["nt"] = "1"
+		}
+		// zap.Any on the same value
+		withAny := p == "" && e.HasVal && e.Name != "StackSkip"
+		var (
+			ain    SX
+			ameta  map[string]string
+			af, tf zapcore.Field
+			ap     string
+			tcName string
+			dt     reflect.Type
+		)
+		if withAny {
+			var x interface{}
+			if v.rv.IsValid() && !(v.rv.Kind() == reflect.Interface && v.rv.IsNil()) {
+				x = v.rv.Interface()
+			}
+			if x != nil {
+				dt = reflect.TypeOf(x)
+			}
+			tcName, tf = e.Name, f
+			if e.GoParam == "[]uint8" { // zap.Any cannot tell []uint8 from []byte: its typed counterpart is Binary
+				tcName, tf = "Binary", zap.Binary(key, v.rv.Bytes())
+			}
+			ameta = map[string]string{"class": anyClass + ":" + e.Name, "nt": meta["nt"], "ctor": e.Name}
+			func() {
+				defer func() {
+					if p := recover(); p != nil {
+						ap = fmt.Sprint(p)
+					}
+				}()
+				af = zap.Any(key, x)
+			}()
+		}
+		// ---- between the two moments the ambient state changes ----
+		if amb != nil {
+			c03SetLocal(amb.b)
+		}
+		// ---- moment 2: the Fields are encoded and compared ----
+		lb := c03AmbID()
+		ambSx := L(I(la), I(lb))
+		in := L(I(0), Str(e.Name), Str(key), v.sx, Str(stack), ambSx)
+		if withAny {
+			ain = L(I(1), c03Gty(dt), c03Impls(dt), Str(key), anySx, Str(tcName), ambSx)
 		}
 		if p != "" {
 			c.Emit(in, L(Z(-1)), meta)
@@ -689,43 +781,21 @@ func c03(c *Ctx) {
 		c03ElemBase = reflect.Value{}
 		if p2 != "" {
 			c.Emit(in, L(Z(-1)), meta)
-			return
-		}
-		c.Emit(in, L(c03ProjField(f), calls), meta)
-		if stack == "" { // Stack fields hold environment-dependent text: not part of the Equals pairs
-			m := c03made{e, key, v, f}
-			perCtor[e.Name] = append(perCtor[e.Name], m)
-			pool = append(pool, m)
-		}
-
-		// zap.Any on the same value
-		if !e.HasVal || e.Name == "StackSkip" {
-			return
-		}
-		var x interface{}
-		if v.rv.IsValid() && !(v.rv.Kind() == reflect.Interface && v.rv.IsNil()) {
-			x = v.rv.Interface()
-		}
-		var dt reflect.Type
-		if x != nil {
-			dt = reflect.TypeOf(x)
-		}
-		tcName, tf := e.Name, f
-		if e.GoParam == "[]uint8" { // zap.Any cannot tell []uint8 from []byte: its typed counterpart is Binary
-			tcName, tf = "Binary", zap.Binary(key, v.rv.Bytes())
-		}
-		ain := L(I(1), c03Gty(dt), c03Impls(dt), Str(key), anySx, Str(tcName))
-		ameta := map[string]string{"class": "any:" + e.Name, "nt": meta["nt"], "ctor": e.Name}
-		var af zapcore.Field
-		ap := ""
-		func() {
-			defer func() {
-				if p := recover(); p != nil {
-					ap = fmt.Sprint(p)
+		} else {
+			c.Emit(in, L(c03ProjField(f), calls), meta)
+			if stack == "" { // Stack fields hold environment-dependent text: not part of the Equals pairs
+				m := c03made{e, key, v, f, la, amb}
+				if amb != nil {
+					ambMade = append(ambMade, m)
+				} else {
+					perCtor[e.Name] = append(perCtor[e.Name], m)
 				}
-			}()
-			af = zap.Any(key, x)
-		}()
+				pool = append(pool, m)
+			}
+		}
+		if !withAny || p2 != "" {
+			return
+		}
 		if ap != "" {
 			c.Emit(ain, L(Z(-1)), ameta)
 			return
@@ -743,13 +813,13 @@ func c03(c *Ctx) {
 		t := c03ValType(e)
 		if t == nil {
 			for _, k := range keys[:2] {
-				runCtor(e, k, c03NoVal, "boundary")
+				runCtor(e, k, c03NoVal, "boundary", nil)
 			}
 			continue
 		}
 		if e.Name == "StackSkip" {
 			for i := 0; i < 3; i++ {
-				runCtor(e, "st", c03v{rv: reflect.ValueOf(i), sx: c03VI(int64(i)), nt: i != 0}, "boundary")
+				runCtor(e, "st", c03v{rv: reflect.ValueOf(i), sx: c03VI(int64(i)), nt: i != 0}, "boundary", nil)
 			}
 			continue
 		}
@@ -758,7 +828,7 @@ func c03(c *Ctx) {
 			if !ok {
 				break
 			}
-			runCtor(e, keys[i%len(keys)], v, "boundary")
+			runCtor(e, keys[i%len(keys)], v, "boundary", nil)
 		}
 	}
 	// 2. random values
@@ -769,18 +839,85 @@ func c03(c *Ctx) {
 		}
 		for i := 0; i < nRandom; i++ {
 			v, _ := g.value(t, -1)
-			runCtor(e, keys[r.Intn(len(keys))], v, "random")
+			runCtor(e, keys[r.Intn(len(keys))], v, "random", nil)
+		}
+	}
+	// 2b. ambient state: time.Local is re-pointed between building a Field and encoding it.  Every
+	// ordered pair (a, b) of distinct locations out of c03AmbLocs (the original local zone, UTC, fixed
+	// non-UTC zones, a zone named "Local", a tzdata zone): the values are made with time.Local = a (so
+	// time.Unix / time.Now / time.Date(.., time.Local) / t.Local() values are in a, others are in UTC, in
+	// fixed zones, in b), the Fields are built, time.Local = b, the Fields are encoded.  Constructors
+	// whose parameter can hold a time.Time get every boundary value under every pair; all the others a
+	// few values under two pairs each (nothing they deliver may depend on time.Local either).
+	var ambs []c03amb
+	for _, a := range c03AmbLocs {
+		for _, b := range c03AmbLocs {
+			if a != b {
+				ambs = append(ambs, c03amb{a, b})
+			}
+		}
+	}
+	nAmbRandom := 2
+	if c.Thorough {
+		nAmbRandom = 40
+	}
+	ambRun := func(e genC03Ctor, t reflect.Type, amb c03amb, idx int) bool {
+		c03SetLocal(amb.a)
+		defer c03SetLocal(c03OrigLocal)
+		v, ok := g.value(t, idx)
+		if !ok {
+			return false
+		}
+		k := keys[0]
+		if idx < 0 {
+			k = keys[r.Intn(len(keys))]
+		} else {
+			k = keys[idx%len(keys)]
+		}
+		runCtor(e, k, v, "ambient", &amb)
+		return true
+	}
+	for ei, e := range genC03Ctors {
+		t := c03ValType(e)
+		if t == nil || e.Name == "StackSkip" {
+			continue
+		}
+		if c03TimeBearing(t) {
+			for _, amb := range ambs {
+				for i := 0; ambRun(e, t, amb, i); i++ {
+				}
+				for i := 0; i < nAmbRandom; i++ {
+					ambRun(e, t, amb, -1)
+				}
+			}
+			continue
+		}
+		for j := 0; j < 2; j++ {
+			amb := ambs[(2*ei+j*7)%len(ambs)]
+			for i := 0; i < 3 && ambRun(e, t, amb, i); i++ {
+			}
+			ambRun(e, t, amb, -1)
 		}
 	}
 	// 3. Field.Equals on pairs: a field with itself, with a field rebuilt from the same input, with
 	// another value of the same constructor, with a field of another constructor under the same key
 	emitPair := func(a, b c03made, class string) {
-		in := L(I(2), a.triple(), b.triple())
+		in := L(I(2), a.triple(), b.triple(), L(I(a.la), I(b.la)))
 		meta := map[string]string{"class": "equals:" + class, "nt": "1"}
 		if a.v.kf || b.v.kf {
 			meta["kf"] = c03KF
 		}
 		c.Emit(in, L(I(c03Equals(a.f, b.f)), I(c03Equals(b.f, a.f)), I(c03Equals(a.f, a.f)), I(c03Equals(b.f, b.f))), meta)
+	}
+	// a Field built now, with time.Local pointing to loc (nil: left alone)
+	build := func(e genC03Ctor, key string, v c03v, loc *time.Location) (c03made, bool) {
+		if loc != nil {
+			c03SetLocal(loc)
+			defer c03SetLocal(c03OrigLocal)
+		}
+		la := c03AmbID()
+		f, p := c03CallCtor(e, key, v)
+		return c03made{e: e, key: key, v: v, f: f, la: la}, p == ""
 	}
 	for _, ms := range perCtorOrdered(perCtor) {
 		for i, m := range ms {
@@ -788,27 +925,53 @@ func c03(c *Ctx) {
 				break
 			}
 			// rebuilt from the same input (same Go value: shared pointers, aliasing slices)
-			f2, p := c03CallCtor(m.e, m.key, m.v)
-			if p == "" {
-				emitPair(m, c03made{m.e, m.key, m.v, f2}, "same-input")
+			if m2, ok := build(m.e, m.key, m.v, nil); ok {
+				emitPair(m, m2, "same-input")
 			}
 			// the next value of the same constructor, under the same key (so that the payloads are compared)
 			n := ms[(i+1)%len(ms)]
-			if f3, p := c03CallCtor(n.e, m.key, n.v); p == "" {
-				emitPair(m, c03made{n.e, m.key, n.v, f3}, "same-ctor")
+			if m3, ok := build(n.e, m.key, n.v, nil); ok {
+				emitPair(m, m3, "same-ctor")
 			}
 		}
+	}
+	// ambient state: the first Field was built with time.Local = a; the same Go value is turned into
+	// a Field again after time.Local has been re-pointed to b (and, every other time, compared while
+	// time.Local still points to b): same input, so the same Field, and Equal -- both ways
+	for i, m := range ambMade {
+		if !c.Thorough && !c03TimeBearing(c03ValType(m.e)) && i%2 == 1 {
+			continue
+		}
+		func() {
+			m2, ok := build(m.e, m.key, m.v, m.amb.b)
+			if !ok {
+				return
+			}
+			if i%2 == 0 {
+				c03SetLocal(m.amb.b)
+				defer c03SetLocal(c03OrigLocal)
+			}
+			emitPair(m, m2, "ambient-same-input")
+			if n := ambMade[(i+1)%len(ambMade)]; n.e.Name == m.e.Name {
+				if m3, ok := build(n.e, m.key, n.v, m.amb.b); ok {
+					emitPair(m, m3, "ambient-same-ctor")
+				}
+			}
+		}()
 	}
 	for i := 0; i < nPairs && len(pool) > 1; i++ {
 		a := pool[r.Intn(len(pool))]
 		b := pool[r.Intn(len(pool))]
 		if r.Chance(70) { // same key, so that the payload comparison is reached
-			b.key = a.key
-			f2, p := c03CallCtor(b.e, b.key, b.v)
-			if p != "" {
+			var loc *time.Location // a Field of an ambient class: rebuilt under the OTHER location of its pair
+			if b.amb != nil {
+				loc = b.amb.b
+			}
+			b2, ok := build(b.e, a.key, b.v, loc)
+			if !ok {
 				continue
 			}
-			b.f = f2
+			b = b2
 		}
 		emitPair(a, b, "cross")
 	}
